@@ -211,11 +211,15 @@ def run(rng: Rng, tier: str, index: int) -> RunResult:
     res.exhaustive_sweeps += 1 if stride == 1 else 0
     ecount = 0
 
-    def attack(kind, desc, ser2, det2, use_conf=None, registry=None, nondet=False):
+    def attack(kind, desc, ser2, det2, use_conf=None, registry=None, nondet=False, slot=None):
+        # the entry point is chosen by the fault's enumeration index, never by how many earlier faults were applicable
+        # (applicability of character faults depends on OpenSSL-random signature octets)
         nonlocal ecount
         c = use_conf or conf
-        ents = live_entries if thorough else [live_entries[ecount % len(live_entries)]]
-        ecount += 1
+        if slot is None:
+            slot = ecount
+            ecount += 1
+        ents = live_entries if thorough else [live_entries[slot % len(live_entries)]]
         for e in ents:
             acc, bad, r = check_delivery(e, ser2, det2, c, ledger, registry)
             res.case(index, alg, form, kind, desc, e)
@@ -227,21 +231,21 @@ def run(rng: Rng, tier: str, index: int) -> RunResult:
                 res.violation(ID, sig, "%s [fault: %s %s]" % (what, kind, desc),
                               _repro(e, ser2, det2, c, ledger, [kind + " " + desc], registry))
 
-    for kind, desc, fn in singles:
+    for si, (kind, desc, fn) in enumerate(singles):
         out = F.apply(A.ser, A.detached, [fn])
         if out is None or (out[0] == A.ser and out[1] == A.detached):
             continue
         nondet = randomized and (kind.startswith("flipchar") or kind.endswith(".sig"))
-        attack(kind, desc, out[0], out[1], nondet=nondet)
+        attack(kind, desc, out[0], out[1], nondet=nondet, slot=si)
 
     # ---- paired faults (seeded) ----
     prs = rng.sub("pairs")
-    for _ in range(600 if thorough else 60):
+    for pi in range(600 if thorough else 60):
         (k1, d1, f1), (k2, d2, f2) = prs.pick(singles), prs.pick(singles)
         out = F.apply(A.ser, A.detached, [f1, f2])
         if out is None or (out[0] == A.ser and out[1] == A.detached):
             continue
-        attack("pair", "%s{%s} + %s{%s}" % (k1, d1, k2, d2), out[0], out[1], nondet=True)
+        attack("pair", "%s{%s} + %s{%s}" % (k1, d1, k2, d2), out[0], out[1], nondet=True, slot=pi)
 
     # ---- splices between tokens of the same key and of another key ----
     if form != "general":
